@@ -536,8 +536,10 @@ impl<'a, 'b> CertificateChain<'a, 'b> {
                 .iter()
                 .find(|c| c.cert.tbs_certificate.subject == cert.cert.tbs_certificate.issuer)
             {
-                Some(v) => cert = v,
-                None => break,
+                // Certificates naming each other as issuer would otherwise be followed forever:
+                // stop when the chain comes back to a certificate it already contains.
+                Some(v) if !certs.iter().any(|c| std::ptr::eq(*c, v)) => cert = v,
+                _ => break,
             }
             certs.push(cert);
         }
